@@ -125,6 +125,9 @@ def chk_surface(case, note):
         note.cls("near-transition")
     note.cls("t0>t1" if t0 > t1 else ("t0<t1" if t0 < t1 else "t0==t1"))
     note.nt(eq or mer or tr)
+    if not case.get("_swapped") and b0 & 1:
+        # the identical two strings once more with the time stamps exchanged
+        return chk_surface(dict(case, t0=case["t1"], t1=case["t0"], _swapped=True), type(note)())
     return None
 
 
